@@ -378,9 +378,10 @@ class LateStart(Paths):
     bounds = {"quick": "3 markets (one starting at s in {2,3}, stochastic or deterministic; one deterministic from 0), chunk size 2, 3 "
                        "or 100, horizon 7, no change or one change (drift / volatility of the early market, drift of the late one) "
                        "at t in {0 (the setters' default), 1, s, s+1}, after the whole horizon was read",
-              "thorough": "same"}
+              "thorough": "adds the deterministic market starting late too (starts (2,4), (3,1), (3,5)), change times 0, 1, "
+                          "between the starts, at and after the later start"}
     reach = ("nontrivial", "late-start", "history-kept", "zero-vol-path")
-    outside = ("float rounding of exp/cumsum", "two late markets with different starts")
+    outside = ("float rounding of exp/cumsum", "more than two late markets")
 
     def cases(self, tier):
         out = []
@@ -391,6 +392,13 @@ class LateStart(Paths):
                     for kind in ("drift", "vol", "drift-late"):
                         for t in (0, 1, s, s + 1):
                             out.append({"chunk": chunk, "s": s, "zero1": zero, "kind": kind, "t": t})
+        if tier == "thorough":
+            # the deterministic market starts late as well, at another time than the first late market
+            for chunk in (2, 3, 100):
+                for s, s2 in ((2, 4), (3, 1), (3, 5)):
+                    for kind in ("none", "drift", "vol", "drift-late"):
+                        for t in ((0,) if kind == "none" else (0, 1, min(s, s2) + 1, max(s, s2), max(s, s2) + 1)):
+                            out.append({"chunk": chunk, "s": s, "s2": s2, "zero1": False, "kind": kind, "t": t})
         return out
 
     def run(self, g, case):
@@ -401,7 +409,8 @@ class LateStart(Paths):
         vol1 = 0.0 if case["zero1"] else g.real("vol1", 0, 10, lo_strict=True)
         f.add_market(0, init[0], g.real("mu0", -1, 1), g.real("vol0", 0, 10, lo_strict=True))
         f.add_market(1, init[1], g.real("mu1", -1, 1), vol1, start_at=s)
-        f.add_market(2, 50.0, g.real("mu2", -1, 1), 0.0)
+        f.add_market(2, 50.0, g.real("mu2", -1, 1), 0.0, start_at=case.get("s2", 0))
+        s = {1: s, 2: case.get("s2", 0)}
         mon = GenMonitor(g, f)
         try:
             g.note("late-start")
@@ -413,7 +422,7 @@ class LateStart(Paths):
                 f.change_volatility(0, g.real("vol0b", 0, 10, lo_strict=True), time=t)
             elif case["kind"] == "drift-late":
                 f.change_drift(1, g.real("mu1b", -1, 1), time=t)
-            if case["kind"] != "none" and t < s:
+            if case["kind"] != "none" and t < s[1]:
                 g.note("nontrivial")
             allp = {m: f.get_fundamental_prices(m, range(self.HORIZON + 1)) for m in (0, 1, 2)}
             for m in (0, 1, 2):
@@ -430,13 +439,14 @@ class LateStart(Paths):
             g.require(allp[m][0] == (init[m] if m < 2 else 50.0), "C12.starts-at-initial")
             for k in range(self.HORIZON + 1):
                 g.require(allp[m][k] > 0, "C12.not-positive", f"market {m} time {k}")
-        for k in range(s + 1):
-            g.require(allp[1][k] == init[1], "C12.late-market-moves-before-its-start",
-                      f"market starting at {s}: value at time {k} is not the configured initial value")
-        for rec in mon.gens:
-            if 1 in rec["ids"]:
-                g.require(rec["until"] >= s, "C12.late-market-generated-before-its-start",
-                          f"market starting at {s} is part of a chunk that begins at {rec['until']}")
+        for m, sm in s.items():
+            for k in range(sm + 1):
+                g.require(allp[m][k] == (init[m] if m < 2 else 50.0), "C12.late-market-moves-before-its-start",
+                          f"market {m} starting at {sm}: value at time {k} is not the configured initial value")
+            for rec in mon.gens:
+                if m in rec["ids"]:
+                    g.require(rec["until"] >= sm, "C12.late-market-generated-before-its-start",
+                              f"market {m} starting at {sm} is part of a chunk that begins at {rec['until']}")
         self.check_chain(g, None, mon, allp)
         g.note("zero-vol-path")
         for rec in mon.gens:
